@@ -38,7 +38,7 @@ func must0(err error) {
 	}
 }
 
-func stream(label string) *det.Stream { return det.New(engine.Seed(), "c08/"+label) }
+func stream(label string) *det.Stream { return det.New(seedValue(), "c08/"+label) }
 
 // memo caches expensive immutable setup (keys, honest proofs) across executions.
 type memo[T any] struct {
@@ -213,6 +213,10 @@ type niInst struct {
 	verify           func(c compiler.Name, ctx *session.Context, sel stmtSel, proof []byte) error
 	// recode = Marshal(Unmarshal(proof)) with the compiler's own proof type (error when decoding fails)
 	recode func(c compiler.Name, proof []byte) ([]byte, error)
+	// nils lists the nil components of the decoded proof (error when decoding fails)
+	nils func(c compiler.Name, proof []byte) ([]string, error)
+	// zkChild runs (in a child process) the interactive protocol with edit idx applied to message m
+	zkChild func(m, idx int) (bool, string)
 	// sigmaLevel runs the sigma-level checks for this protocol
 	sigmaLevel func(x *engine.X)
 	// zkRun runs the interactive compiler honestly / with one message edit
@@ -295,8 +299,32 @@ func (c *sigCase[X, W, A, S, Z]) ni() *niInst {
 			return serde.MarshalCBOR(p)
 		}
 	}
+	n.nils = func(cn compiler.Name, proof []byte) ([]string, error) {
+		switch cn {
+		case fiatshamir.Name:
+			p, err := serde.UnmarshalCBOR[*fiatshamir.Proof[A, Z]](proof)
+			if err != nil {
+				return nil, err
+			}
+			return nilPaths(p), nil
+		case fischlin.Name:
+			p, err := serde.UnmarshalCBOR[*fischlin.Proof[A, Z]](proof)
+			if err != nil {
+				return nil, err
+			}
+			return nilPaths(p), nil
+		default:
+			p, err := serde.UnmarshalCBOR[*randfischlin.Proof[A, Z]](proof)
+			if err != nil {
+				return nil, err
+			}
+			return nilPaths(p), nil
+		}
+	}
 	n.sigmaLevel = func(x *engine.X) { sigmaLevel(x, c) }
-	n.zkRun = func(x *engine.X) { zkRun(x, c) }
+	n.zkRun = func(x *engine.X) { zkRun(x, c, n) }
+	n.zkChild = func(m, idx int) (bool, string) { return zkChildRun(c, m, idx) }
+	register(n)
 	return n
 }
 
